@@ -135,7 +135,7 @@ theorem mul_sound (cap : Nat) (hc : 2 ≤ cap) (s1 s2 : Ivs) (h1 : Good cap s1) 
         rcases hp with rfl | rfl | rfl | rfl <;> simp [geZero, leZero, i64Min, i64Max])
     mul_boxMono x y hx hy (mul_cover x y hxr hyr)
 
-/-! ### integer `sum`: sound on a single-interval element type, NOT on a union of intervals -/
+/-! ### integer `sum`: bounds of the sum of a list; regression of the repaired union-of-intervals defect -/
 
 theorem sum_bounds (xs : List Int) (a b : Int) (h : ∀ x ∈ xs, a ≤ x ∧ x ≤ b) :
     (xs.length : Int) * a ≤ xs.sum ∧ xs.sum ≤ (xs.length : Int) * b := by
@@ -151,10 +151,11 @@ theorem sum_bounds (xs : List Int) (a b : Int) (h : ∀ x ∈ xs, a ≤ x ∧ x 
       rw [Int.natCast_succ, Int.add_mul, Int.one_mul]
     omega
 
-/-- the propagated range of `sum` is unsound when the element type is a union of intervals:
-elements {1, 10}, exactly 2 of them: the declared image is {2, 20} but 1 + 10 = 11 (as observed on the real code). -/
-theorem sum_union_counterexample :
-    ¬ Mem ([1, 10].sum) (sumImage 128 [(1, 1), (10, 10)] [(2, 2)]) := by decide
+/-- Regression for the repaired defect (before the fix the image of elements {1, 10} × size {2} was {2, 20}
+and excluded 1 + 10 = 11; the witness is kept in corpus/C06 and must now pass). -/
+theorem sum_union_regression :
+    Mem ([1, 10].sum) (sumImage 128 [(1, 1), (10, 10)] [(2, 2)]) ∧
+    Mem ([4, 4, 2].sum) (sumImage 128 [(2, 2), (4, 4)] [(3, 3)]) := by decide
 
 /-- Non-vacuity: the corner hull on a box that straddles two quadrants of `*`. -/
 example : mulImage 128 [(-2, 3)] [(4, 5)] = [(-10, 15)] := by decide
